@@ -76,6 +76,13 @@ func c01Corpus() []corpusProg {
 		{"recursive-func-named-like-static-function", ref.Func("sqr", []string{"v"}, ref.If(ref.Bin(">", ref.Id("v"), ref.Int(100)), ref.Id("v"), ref.Static("sqr", ref.Bin("+", ref.Id("v"), ref.Int(50)))), ref.Bin("+", ref.Static("sqr", ref.Int(3)), a)), []string{"a"}, tup(0)},
 		{"field-closure-named-like-method", ref.Bin("+", ref.Method(ref.MapN([]string{"get", "a"}, []*ref.Node{ref.Clo([]string{"k"}, ref.Int(1)), ref.Int(2)}), "get", ref.Str("a")), a), []string{"a"}, tup(0)},
 		{"field-closure-named-like-method-nonconst", ref.Method(ref.MapN([]string{"get", "a"}, []*ref.Node{ref.Clo([]string{"k"}, a), ref.Int(2)}), "get", ref.Str("a")), []string{"a"}, tup(7)},
+		// left-to-right evaluation of & and |: an operand between two constants is evaluated (and fails) as written,
+		// whatever the optimizer may regroup or fold around it
+		{"bool-chain-constants-around-nonbool-and", ref.Bin("&", ref.Bin("&", ref.Bool(true), a), ref.Bool(false)), []string{"a"}, tup(5, 0)},
+		{"bool-chain-constants-around-nonbool-or", ref.Bin("|", ref.Bin("|", ref.Bool(false), a), ref.Bool(true)), []string{"a"}, tup(5, 1)},
+		{"bool-chain-constants-around-failing-index", ref.Try(ref.Bin("&", ref.Bin("&", ref.Bool(true), ref.Bin("=", ref.Index(ref.ListN(ref.Int(1)), a), ref.Int(1))), ref.Bool(false)), ref.Str("caught")), []string{"a"}, tup(9, 0)},
+		{"bool-chain-const-lets-around-nonbool", ref.Let("on", ref.Bin("<", ref.Int(1), ref.Int(2)), ref.Let("off", ref.Bin("<", ref.Int(2), ref.Int(1)), ref.Bin("&", ref.Bin("&", ref.Id("on"), a), ref.Id("off")))), []string{"a"}, tup(5)},
+		{"bool-chain-constants-around-comparison", ref.Bin("|", ref.Bin("|", ref.Bool(false), ref.Bin(">", a, ref.Int(3))), ref.Bool(false)), []string{"a"}, tup(5, 1)},
 		{"curry", ref.Call(ref.Call(ref.Clo([]string{"p"}, ref.Clo([]string{"q"}, ref.Bin("-", ref.Id("p"), ref.Id("q")))), a), ref.Int(3)), []string{"a"}, tup(10, 2)},
 	}
 }
